@@ -168,7 +168,7 @@ theorem trik_memoIf {α : Type} {E : Ctx → Nat → Nat → PyExc → Prop} (b 
     · exact hb
 
 /-- `_is_zombie` on a process that is gone: False, counter moves forward, cache untouched -/
-theorem isZombie_false_of_gone (r : Bool) (q : Nat) (c : Ctx) (s : St) (ha : Adm c) (hg : pst c s.k q = .gone) :
+theorem isZombie_false_of_gone (r : Host) (q : Nat) (c : Ctx) (s : St) (ha : Adm c) (hg : pst c s.k q = .gone) :
     ∃ s', isZombie (goodCfg r) q c s = (.ok false, s') ∧ s'.cache = s.cache ∧ s.k ≤ s'.k := by
   obtain ⟨r1, s1, h1, hk1, hc1, hr1⟩ :=
     access_spec (.fs .openF (.file q .stat)) (fun w st => tblOpen w st (.file q .stat)) c s ha
@@ -186,7 +186,7 @@ theorem isZombie_false_of_gone (r : Bool) (q : Nat) (c : Ctx) (s : St) (ha : Adm
     exact ⟨s1, rfl, hc1, by omega⟩
 
 /-- the decorator, with evidence -/
-theorem wrapK (r : Bool) (q : Nat) {α : Type} {body : M α} {Q : α → Prop} (hb : TriK (EB q) body Q) :
+theorem wrapK (r : Host) (q : Nat) {α : Type} {body : M α} {Q : α → Prop} (hb : TriK (EB q) body Q) :
     TriK (EO q) (wrapExceptions (goodCfg r) q body) Q := by
   intro c s ha hi
   have h1 := hb c s ha hi
@@ -232,12 +232,12 @@ theorem wrapK (r : Bool) (q : Nat) {α : Type} {body : M α} {Q : α → Prop} (
       simp only [this]
       exact ⟨Or.inr ⟨rfl, hd⟩, hk, hci⟩
 
-theorem WK (r : Bool) (name : String) (q : Nat) {α : Type} {body : M α} {Q : α → Prop}
+theorem WK (r : Host) (name : String) (q : Nat) {α : Type} {body : M α} {Q : α → Prop}
     (hw : (goodCfg r).wrapped.contains name = true) (hb : TriK (EB q) body Q) :
     TriK (EO q) (W (goodCfg r) name q body) Q := by
   unfold W; rw [if_pos hw]; exact wrapK r q hb
 
-variable (r : Bool)
+variable (r : Host)
 
 theorem parseStatFile_K (q : Nat) : TriK (EO q) (Plat.parseStatFile (goodCfg r) q) (fun _ => True) := by
   unfold Plat.parseStatFile
